@@ -131,6 +131,11 @@ def body(chk):
     p = (2, 2, [0, 2, 3], 2) if quick else tier_param('C15', (2, 2, [0, 1, 2, 3, 4], 3))
     run_lane(chk, Construct, p, bounds={'attributes': f'<= {p[0]} (pairwise distinct names)', 'values per attribute': f'0..{p[1]}', 'value lengths': p[2], 'dn bytes': f'<= {p[3]}',
                                         'value bytes': 'fully symbolic: every valid/invalid UTF-8 pattern in every order'}, need_regions=('text', 'binary', 'no-values'))
+    # second shape: ONE attribute with more values, so that every valid/invalid order of 3 (4) values is decided
+    # (e.g. invalid, valid, invalid - seed C15_4 needs three values to show)
+    p2 = (1, 3, [1, 2], 0) if quick else tier_param('C15b', (1, 4, [1, 2], 1))
+    run_lane(chk, Construct, p2, bounds={'attributes': f'<= {p2[0]}', 'values per attribute': f'0..{p2[1]}', 'value lengths': p2[2], 'dn bytes': f'<= {p2[3]}',
+                                         'value bytes': 'fully symbolic: every valid/invalid UTF-8 pattern in every order'}, selftest=False, need_regions=('text', 'binary'))
     chk.assumptions += [
         'well-formed SearchResultEntry; attribute descriptions within one entry are pairwise distinct (RFC 4511 4.1.7) and valid UTF-8',
         'HashMap modelled as association list with symbolic key equality; iteration order not relied upon',
